@@ -247,7 +247,7 @@ func execC12(e *Env, pp any) {
 			histMu.Unlock()
 		}
 	})
-	const probeU, probeS = 1000, 1001
+	const probeU, probeS, probeJ = 1000, 1001, 1002
 	probePayload := []byte("probe-unary-payload")
 	written := 0
 	e.Go("raw.writer", func() {
@@ -273,6 +273,13 @@ func execC12(e *Env, pp any) {
 		a.Write(rctx, &Rpc{Id: probeS, Header: hs, Body: bytesBody([]byte("two"))})
 		e.Pt("raw.probe")
 		a.Write(rctx, &Rpc{Id: probeS, Header: hs, Status: &goatorepo.ResponseStatus{}, Trailer: &goatorepo.Trailer{}})
+		// server-stream probe whose single request rides with the half-close, the shape
+		// README.md gives ("Client -> Server: id, header, body?, trailer")
+		hj := &goatorepo.RequestHeader{Method: methodNames[KSStream], Source: "raw", Destination: ServerID}
+		e.Pt("raw.probe")
+		a.Write(rctx, &Rpc{Id: probeJ, Header: hj})
+		e.Pt("raw.probe")
+		a.Write(rctx, &Rpc{Id: probeJ, Header: hj, Body: bytesBody([]byte("only")), Trailer: &goatorepo.Trailer{}})
 	})
 	reason := e.Settle()
 	e.Note("nontrivial")
@@ -288,9 +295,15 @@ func execC12(e *Env, pp any) {
 	ur, strs := unaryRuns, streamRuns
 	histMu.Unlock()
 	// (a) the probes completed correctly
-	var pu, psBody, psTrailer *Rpc
+	var pu, psBody, psTrailer, pjBody, pjTrailer *Rpc
 	for _, r := range resp {
 		switch r.GetId() {
+		case probeJ:
+			if r.GetTrailer() != nil {
+				pjTrailer = r
+			} else if r.GetBody() != nil {
+				pjBody = r
+			}
 		case probeU:
 			pu = r
 		case probeS:
@@ -312,6 +325,11 @@ func execC12(e *Env, pp any) {
 	} else if psTrailer.GetStatus().GetCode() != 0 || psBody == nil || !bytes.Equal(psBody.GetBody().GetData(), bytesBody([]byte("count=2")).Data) {
 		e.Violate(prop, "probe-wrong", "stream", "the stream probe ended with status %v, reply %q", psTrailer.GetStatus(), psBody.GetBody().GetData())
 	}
+	if pjTrailer == nil {
+		e.Violate(prop, "probe-unanswered", "sstream.body-with-trailer", "the valid server-stream probe (request and half-close in one envelope) was not completed (Serve returned: %v)\n%s", sr.Returned, e.WaitGraph())
+	} else if pjTrailer.GetStatus().GetCode() != 0 || pjBody == nil || !bytes.Equal(pjBody.GetBody().GetData(), bytesBody([]byte("count=1")).Data) {
+		e.Violate(prop, "probe-wrong", "sstream.body-with-trailer", "the server-stream probe sent its one request in the envelope that carries the trailer (README: \"id, header, body?, trailer\"); it ended with status %v, reply %q (want count=1): the handler never saw the request", pjTrailer.GetStatus(), pjBody.GetBody().GetData())
+	}
 	if sr.Returned {
 		e.Violate(prop, "serve-ended", "serve", "Serve returned (%v) although the transport is healthy: the server stopped serving", sr.Err)
 	}
@@ -326,7 +344,7 @@ func execC12(e *Env, pp any) {
 	if ur != nValidUnary {
 		e.Violate(prop, "unary-handler-count", "unary", "the unary handler ran %d times for %d well-formed unary requests (sequence %v)", ur, nValidUnary, seqString(p.Seq))
 	}
-	nOpen := 1
+	nOpen := 2
 	firstOpen := map[int]bool{}
 	opened := map[int]bool{}
 	for _, q := range p.Seq {
@@ -342,8 +360,8 @@ func execC12(e *Env, pp any) {
 	if strs > nOpen {
 		e.Violate(prop, "stream-handler-count", "stream", "stream handlers ran %d times but only %d well-formed opens were sent (sequence %v)", strs, nOpen, seqString(p.Seq))
 	}
-	if strs < 1+len(firstOpen) {
-		e.Violate(prop, "stream-handler-missing", "stream", "stream handlers ran %d times; the probe and %d first opens each require one (sequence %v)", strs, len(firstOpen), seqString(p.Seq))
+	if strs < 2+len(firstOpen) {
+		e.Violate(prop, "stream-handler-missing", "stream", "stream handlers ran %d times; the two probes and %d first opens each require one (sequence %v)", strs, len(firstOpen), seqString(p.Seq))
 	}
 	// (c) a body for an id with no open stream is answered by a reset for that id:
 	// decidable for ids that were never opened before the body
